@@ -17,6 +17,7 @@ META = {
             "Tie and search on the real implementation: (a) operation histories on the real starlark.Dict, struct / module listings and hash() are evaluated against the Coq machine under two different environments and against the specification machine; "
             "plus 400 (quick) / 4000 (thorough) big dict / set trials (20-400 long-string keys, several table doublings and overflow chains) against a naive oracle in Go; (b) generated dict/set/struct/json/dir()/load/time-heavy programs, including dicts and sets of hundreds of long-string keys (keys >= 12 bytes, one third ending in an error raised inside nested calls) are executed in k fresh processes (new hash seed each), three times in one process and on concurrent goroutines; "
             "the canonical transcript (prints, every global serialised with its iteration orders, String(), raw AttrNames(), error message + backtrace, ExecutionSteps()) must be identical; "
+            "every program is also run again after ALL other programs have run in the process (state left behind by another execution must not change it) and on a Thread that has already executed other programs, one of them failing (a reused thread must behave like a fresh one); "
             "(c) the SAME compiled Program is initialised on many goroutines at once (error programs, and a stress with a freshly reloaded 24 000-line chain program per trial so that lazily decoded tables are built under contention); in the thorough tier the concurrent runs are repeated under Go's race detector.",
     "note": "Trusted: Coq kernel + vm_compute; the harness (program generator, canonical serialiser, process/goroutine drivers), the Go AST walker and its syntactic recognition of map-typed expressions. "
             "Depends on C12 for the refinement of the real hashtable.go (8-entry buckets, overflow chains) to an insertion-ordered map: the table proved here is a simple bucketed model. "
